@@ -21,6 +21,7 @@ def zl(l):
 
 
 class BatchSpec(SeqSpec):
+    ctx_zoo = True      # contexts come from the zoo (cause / DeadlineExceeded / plain), see vlib.apply_ctx_zoo
     component = "batch"
     imports = "From Juniper Require Import Common.Base Conc.GoLTS Conc.Batch.\nFrom Juniper Require Conc.BatchMatcher."
     # a rejection counts only when certified genuine (BatchMatcher.batch_reject_genuine: closures converged within the fuel)
